@@ -12,6 +12,21 @@ Require Import Aiuti.CaseLib Aiuti.Keys Aiuti.Case_C14 Aiuti.Options Aiuti.Optio
 
 Inductive lev := LSeg (l : nat) (script : list bev) | LClose (l : nat).
 
+(* two functions wrapped by ONE options-form decorator object, on one loop: events carry the function *)
+Inductive bufev2 := Sub2 (j a : nat) | BAdv2 (dt : N).
+Inductive bev2 := BCall2 (j k : nat) | BFin2 (j b : nat) | Adv2 (dt : N).
+
+(* what function j sees: its own submissions / calls / returns, and all the pauses *)
+Definition bproj (j : nat) (sc : list bufev2) : list bufev :=
+  flat_map (fun e => match e with
+                     | Sub2 j' a => if Nat.eqb j j' then [Sub a] else []
+                     | BAdv2 dt => [BAdv dt] end) sc.
+Definition cproj (j : nat) (sc : list bev2) : list bev :=
+  flat_map (fun e => match e with
+                     | BCall2 j' k => if Nat.eqb j j' then [BCall k] else []
+                     | BFin2 j' b => if Nat.eqb j j' then [BFin b] else []
+                     | Adv2 dt => [Adv dt] end) sc.
+
 Inductive case :=
 | CCache (kind : mkind) (prefill : bool) (evs : list ev) (direct deco : list Keys.obs)
 (* ONE decorator object built with the options form (no explicit mapping) applied to TWO
@@ -19,6 +34,10 @@ Inductive case :=
    function's calls (evs0 / evs1, interleaved in time by the harness) behave like a cache of
    their own.  d = direct form, e = options form; index = function. *)
 | CCache2 (evs0 evs1 : list ev) (d0 e0 d1 e1 : list Keys.obs)
+(* the same for buffer_until_timeout(timeout=...) and async_background_batcher(...): each function must
+   get its own buffer / its own batcher registry.  d = two direct wrappings, e = one decorator object *)
+| CBuffer2 (timeout : option N) (script : list bufev2) (d0 e0 d1 e1 : list (N * list nat))
+| CBatcher2 (cfg : ocfg) (script : list bev2) (d0 e0 d1 e1 : btrace)
 | CBuffer (timeout : option N) (script : list bufev) (direct deco ctor : list (N * list nat))
 | CBatcher (cfg : ocfg) (script : list bev) (direct deco ctor : btrace) (cross : nat)
 (* solo : for every loop, the trace of THAT loop's part of the plan run alone against the class
@@ -67,6 +86,13 @@ Definition agree (c : case) : bool :=
   | CCache2 evs0 evs1 d0 e0 d1 e1 =>
       Case_C14.agree (C14 KDefault false evs0 d0) && Case_C14.agree (C14 KDefault false evs0 e0) &&
       Case_C14.agree (C14 KDefault false evs1 d1) && Case_C14.agree (C14 KDefault false evs1 e1)
+  | CBuffer2 t sc d0 e0 d1 e1 =>
+      let m0 := buf_trace t (bproj 0 sc) in let m1 := buf_trace t (bproj 1 sc) in
+      flushes_eqb m0 d0 && flushes_eqb m0 e0 && flushes_eqb m1 d1 && flushes_eqb m1 e1
+  | CBatcher2 cfg sc d0 e0 d1 e1 =>
+      let m0 := trace_of (brun (resolve cfg) (cproj 0 sc)) in
+      let m1 := trace_of (brun (resolve cfg) (cproj 1 sc)) in
+      btrace_eqb m0 d0 && btrace_eqb m0 e0 && btrace_eqb m1 d1 && btrace_eqb m1 e1
   | CBuffer t sc d1 d2 d3 =>
       let m := buf_trace t sc in
       flushes_eqb m d1 && flushes_eqb m d2 && flushes_eqb m d3 &&
@@ -145,6 +171,14 @@ Definition ok (c : case) : bool :=
   | CCache2 evs0 evs1 d0 e0 d1 e1 =>
       list_eqb Case_C14.obs_eqb d0 e0 && list_eqb Case_C14.obs_eqb d1 e1 &&
       Case_C14.ok (C14 KDefault false evs0 e0) && Case_C14.ok (C14 KDefault false evs1 e1)
+  | CBuffer2 t sc d0 e0 d1 e1 =>
+      let T := match t with Some v => v | None => buf_default_timeout end in
+      flushes_eqb d0 e0 && flushes_eqb d1 e1 &&
+      buffer_ok T (bproj 0 sc) e0 && buffer_ok T (bproj 1 sc) e1
+  | CBatcher2 cfg sc d0 e0 d1 e1 =>
+      btrace_eqb d0 e0 && btrace_eqb d1 e1 &&
+      batcher_sane (resolve cfg) (call_keys (cproj 0 sc)) e0 &&
+      batcher_sane (resolve cfg) (call_keys (cproj 1 sc)) e1
   | CBuffer t sc d1 d2 d3 =>
       flushes_eqb d1 d2 && flushes_eqb d3 d2 &&
       buffer_ok (match t with Some v => v | None => buf_default_timeout end) sc d2
@@ -170,6 +204,10 @@ Definition nontrivial (c : case) : bool :=
   | CCache kind pf evs d1 d2 => Case_C14.nontrivial (C14 kind pf evs d2)
   | CCache2 evs0 evs1 d0 e0 d1 e1 =>
       Case_C14.nontrivial (C14 KDefault false evs0 e0) && Case_C14.nontrivial (C14 KDefault false evs1 e1)
+  | CBuffer2 t sc d0 e0 d1 e1 =>
+      match e0 with [] => false | _ => true end && match e1 with [] => false | _ => true end
+  | CBatcher2 cfg sc d0 e0 d1 e1 =>
+      match fst e0 with [] => false | _ => true end && match fst e1 with [] => false | _ => true end
   | CBuffer t sc d1 d2 d3 =>
       match d2 with [] => false | _ => true end &&
       match t with Some _ => negb (flushes_eqb (buf_trace t sc) (buf_trace None sc)) | None => true end
